@@ -361,8 +361,14 @@ def Minus(s, p):
     return minus(s, p)
 
 
+def given(f):
+    """an optional callback that the code tests by truth value (`if f:`, `f and f(x)`): given = not None and truthy"""
+    return conj(neg(eq(f, NONE)), truthy(f))
+
+
 def keep(f, w):
-    return disj(eq(f, NONE), cb1(f, w))
+    # ff_result of the traversals: `(f and f(w)) or (not f)` - an absent *or falsy* filter keeps everything
+    return disj(neg(given(f)), cb1(f, w))
 
 
 def Flt(f, s):
